@@ -75,7 +75,7 @@ pub fn main(args: &[String]) {
             Avoid::default()
         };
         let m = Gen::valid_module_avoiding(&mut rng, prof, avoid);
-        extra.push(if i % 3 != 0 { Some(crate::extras::extras_with(&mut rng, &m, prof.option, Some(i / 5 + i))) } else { None });
+        extra.push(if i % 3 != 0 { Some(crate::extras::extras_with(&mut rng, &m, prof.option, &[i / 5 + i])) } else { None });
         mods.push((target.to_string(), unsafe_refs, m));
     }
     let lines: Vec<String> = mods.iter().map(|(t, _, m)| format!("(c15 {t} {})", m.sexp_decls())).collect();
@@ -128,6 +128,21 @@ pub fn main(args: &[String]) {
             }
             if !o.lowering_errors.is_empty() {
                 rep.disagree(&format!("{case} {cname}"), "generator-profile-mismatch", &format!("{:?}", o.lowering_errors), "accepted");
+            }
+            // the same module and configuration through the real command line
+            if rep.distribution.get("cli-tie").copied().unwrap_or(0) < (if thorough { 600 } else { 60 }) && (k % 2 == 0 || cname != "default") {
+                rep.count("cli-tie");
+                let mut flags = vec!["lib_name=somelib".to_string(), "kotlin.domain=dev.diplomattest".to_string()];
+                if *unsafe_refs { flags.push("unsafe_references_in_callbacks=true".into()); }
+                match cname.as_str() {
+                    "js.abi=spec" => flags.push("js.abi=spec".into()),
+                    "kotlin.finalizers" => flags.push("kotlin.use_finalizers_not_cleaners=true".into()),
+                    "demo_gen.module_name" => flags.push("demo_gen.module_name=somelib".into()),
+                    _ => {}
+                }
+                if let Some(d) = tool::cli_tie(&util::workdir("C15tie"), &src, target, None, &flags) {
+                    rep.disagree(&format!("{case} {cname}"), "cli-vs-in-process", &d.to_string(), "same verdict and byte-identical files");
+                }
             }
         }
         for c in &predicted {
